@@ -587,6 +587,22 @@ func genC06v6(o *Out, rng *rand.Rand, tier string) {
 			}
 		}
 	}
+	// an embedded DHCPv4 packet (option 87) whose name fields are full, without NUL: cut on re-encode (allowed normalisation)
+	for k := 0; k < 6; k++ {
+		w4, _ := wirePacket4(rng)
+		for i := 44; i < 236; i++ {
+			w4[i] = byte(1 + rng.Intn(255))
+		}
+		if len(w4) > 600 {
+			continue
+		}
+		msg := append([]byte{3, 1, 2, 3, 0, 87, byte(len(w4) >> 8), byte(len(w4))}, w4...)
+		fix6(o, msg, "embedded-v4-full-names")
+		if k%2 == 0 {
+			relay := append(append([]byte{12, 0}, make([]byte, 32)...), 0, 9, byte(len(msg)>>8), byte(len(msg)))
+			fix6(o, append(relay, msg...), "embedded-v4-full-names")
+		}
+	}
 	// names whose labels contain '.' bytes (accepted on the wire; they must survive a re-encoding)
 	for _, lab := range [][]byte{{4, '.', 'a', 'b', 'c', 0}, {3, 'a', '.', 'b', 0}, {1, '.', 0}, {2, '.', '.', 0}, {2, 'a', '.', 3, 'c', 'o', 'm', 0},
 		{5, '.', 'c', 'o', 'r', 'p', 7, 'e', 'x', 'a', 'm', 'p', 'l', 'e', 0}, {1, 'x', 0, 2, '.', 'y', 0xc0, 0}} {
